@@ -72,11 +72,7 @@ func New[K ~string, V any](expTime, cleanupTime time.Duration) *Cache[K, V] {
 // Set inserts a new item into the cache, but first verifies if an item with the same key already exists in the cache.
 // In case an item with the specified key already exists in the cache it will return an error.
 func (c *Cache[K, V]) Set(key K, val V, d time.Duration) error {
-	item, err := c.Get(key)
-	if item != nil && err == nil {
-		return fmt.Errorf("item with key '%v' already exists. Use the Update method", key)
-	}
-	return c.add(key, val, d)
+	return c.add(key, val, d, true)
 }
 
 // SetDefault adds a new item into the cache with the default expiration time.
@@ -87,7 +83,10 @@ func (c *Cache[K, V]) SetDefault(key K, val V) error {
 // add inserts a new item into the cache together with an expiration time.
 // If the duration is 0 (or DefaultExpiration) the cache default expiration time is used.
 // If the duration is < 0 (or NoExpiration), the item never expires and should be removed manually.
-func (c *Cache[K, V]) add(key K, val V, d time.Duration) error {
+// With ifAbsent the item is stored only if the key has no live item: the check and
+// the insertion form one critical section, so that of several concurrent Set
+// calls for the same key exactly one succeeds.
+func (c *Cache[K, V]) add(key K, val V, d time.Duration, ifAbsent bool) error {
 	var exp int64
 
 	if d == DefaultExpiration {
@@ -104,6 +103,15 @@ func (c *Cache[K, V]) add(key K, val V, d time.Duration) error {
 		return fmt.Errorf("item with key '%v' already exists", key)
 	}
 
+	c.mu.Lock()
+	defer c.mu.Unlock()
+
+	if ifAbsent {
+		if item, ok := c.items[key]; ok && !(item.expiration > 0 && time.Now().UnixNano() > item.expiration) {
+			return fmt.Errorf("item with key '%v' already exists. Use the Update method", key)
+		}
+	}
+
 	switch any(val).(type) {
 	case string:
 		if len(any(val).(string)) == 0 {
@@ -111,12 +119,10 @@ func (c *Cache[K, V]) add(key K, val V, d time.Duration) error {
 		}
 	}
 
-	c.mu.Lock()
 	c.items[key] = &Item[V]{
 		object:     val,
 		expiration: exp,
 	}
-	c.mu.Unlock()
 
 	return nil
 }
@@ -156,7 +162,7 @@ func (c *Cache[K, V]) Update(key K, val V, d time.Duration) error {
 	if item != nil && err != nil {
 		return err
 	}
-	return c.add(key, val, d)
+	return c.add(key, val, d, false)
 }
 
 // Delete removes a cache item.
